@@ -169,7 +169,8 @@ def gen_caps(repo, report):
            "From Coq Require Import String List Bool.\nImport ListNotations.\nOpen Scope string_scope.\n\n"
            "Record mcap := { mc_name : string; mc_valid : bool; mc_rtt : string; mc_thr : bool; mc_field : bool; mc_agg : bool;\n"
            "                 mc_minq : option nat; mc_maxq : option nat }.\n"
-           "Record ocap := { oc_name : string; oc_valid : bool; oc_rtt : string; oc_x : bool; oc_thr : bool; oc_field : bool; oc_acc : bool }.\n"
+           "Record ocap := { oc_name : string; oc_valid : bool; oc_rtt : string; oc_x : bool; oc_thr : bool; oc_field : bool; oc_acc : bool;\n"
+           "                 oc_methods : list string }.      (* the drawing / table methods the class (or an ancestor below Output) defines *)\n"
            "Inductive ttype := TNone | TT (s : string) | TError.\n\n"
            "Definition ax_some (ax : option string) : bool := match ax with Some _ => true | None => false end.\n"
            "Definition ax_is (ax : option string) (n : string) : bool := match ax with Some a => String.eqb a n | None => false end.\n"
@@ -201,12 +202,46 @@ def gen_caps(repo, report):
     out += "Definition metric_caps : list mcap :=\n  [%s].\n\n" % ";\n   ".join(rows)
 
     ocls, oall = class_table(otree, "Output")
+    CORES = ["_plot_core", "_map_core", "_plot_rank_core", "_plot_impact_core", "_plot_mapimpact_core", "_get_x_y"]
+    defs = {n.name: {st.name for st in n.body if isinstance(st, ast.FunctionDef)} for n in otree.body if isinstance(n, ast.ClassDef)}
+
+    def methods_of(c):
+        """core methods defined by the class or an ancestor other than the abstract base Output"""
+        found, seen = [], set()
+        while c in oall and c != "Output" and c not in seen:
+            seen.add(c)
+            found += [m for m in CORES if m in defs.get(c, ()) and m not in found]
+            c = oall[c][0]
+        return [m for m in CORES if m in found]
+    # which core method each public entry point of Output calls, and which entry point the driver calls per -type
+    entry = {}
+    base = [n for n in otree.body if isinstance(n, ast.ClassDef) and n.name == "Output"][0]
+    for st in base.body:
+        if isinstance(st, ast.FunctionDef) and st.name in ("plot", "map", "plot_rank", "plot_impact", "plot_mapimpact", "text", "csv"):
+            called = [m for m in CORES if any(isinstance(x, ast.Attribute) and x.attr == m for x in ast.walk(st))]
+            if len(called) != 1:
+                raise Unsupported("Output.%s calls %r of the core methods" % (st.name, called))
+            entry[st.name] = called[0]
+    disp = []
+    for n in ast.walk(run):
+        if isinstance(n, ast.If) and isinstance(n.test, ast.Compare) and ast.unparse(n.test.left) == "plot_type" and \
+                isinstance(n.test.comparators[0], ast.Constant):
+            calls = [ast.unparse(b) for b in n.body if ast.unparse(b).startswith("pl.") and ast.unparse(b).endswith("(data)")]
+            if len(calls) == 1:
+                disp.append((n.test.comparators[0].value, calls[0][3:-6]))
+    # the final else of the chain: pl.plot(data)
+    if not any(t == "text" for t, _ in disp) or not all(m in entry for _, m in disp) or "plot" not in entry:
+        raise Unsupported("output type dispatch of driver.run not understood: %r" % disp)
     rows = []
     for c in sorted(ocls, key=lambda s: s.lower()):
-        rows.append("{| oc_name := %s; oc_valid := %s; oc_rtt := %s; oc_x := %s; oc_thr := %s; oc_field := %s; oc_acc := %s |}" % (
+        rows.append("{| oc_name := %s; oc_valid := %s; oc_rtt := %s; oc_x := %s; oc_thr := %s; oc_field := %s; oc_acc := %s; oc_methods := [%s] |}" % (
             cstr(c), cbool(valid(oall, c)), cstr(rtt(oall, c)), cbool(flag(oall, c, "supports_x")),
-            cbool(flag(oall, c, "supports_threshold")), cbool(flag(oall, c, "supports_field")), cbool(flag(oall, c, "supports_acc"))))
+            cbool(flag(oall, c, "supports_threshold")), cbool(flag(oall, c, "supports_field")), cbool(flag(oall, c, "supports_acc")),
+            "; ".join(cstr(m) for m in methods_of(c))))
     out += "Definition output_caps : list ocap :=\n  [%s].\n\n" % ";\n   ".join(rows)
+    out += ("(* -type <t> -> the core method that is finally called (driver.run dispatch, then Output.<entry point>); any other type: plot *)\n"
+            "Definition type_dispatch : list (string * string) :=\n  [%s].\nDefinition default_core : string := %s.\n\n" % (
+                "; ".join("(%s, %s)" % (cstr(t), cstr(entry[m])) for t, m in disp), cstr(entry["plot"])))
 
     # the -m <name> -> Output class chain
     chain = []
